@@ -94,6 +94,14 @@ func sendRequestToTarget(req *http.Request, httpsDefault bool) (*http.Response, 
 	}
 	slog.Debug("Sent request to target", "url", req.URL, "status", resp.Status)
 
+	if resp.StatusCode < 100 {
+		// Not an HTTP status code. It cannot be relayed (net/http refuses to write it and drops the client's
+		// connection): the fetch has failed, which the callers answer with 502.
+		resp.Body.Close()
+		slog.Error("Invalid status code from target", "url", req.URL, "status", resp.Status)
+		return nil, fmt.Errorf("%w: invalid status code %d from upstream", ErrSendRequestFailed, resp.StatusCode)
+	}
+
 	// Remove any hop-by-hop headers in the response that should not be forwarded to the client.
 	removeHopByHopHeaders(resp.Header)
 
